@@ -356,13 +356,20 @@ class Prov:
     """Scope-aware provenance of mesh rows in an exporter: does a local name hold a row (`face`) or an
     element (`vid`, `a`, `v[0]`) of a mesh container `mesh.<kind>`?  `mesh` is the first parameter."""
 
-    def __init__(self, fn, mesh_name=None):
+    def __init__(self, fn, mesh_name=None, b=None):
         self.fn = fn
         ps = au.params(fn, skip_self=True)
         self.mesh = mesh_name or (ps[0] if ps else None)
+        self.b = b
+        self.ids_of = {}
 
     # mesh.<kind>
     def container_kind(self, e):
+        # a local that caches the container (`faces = mesh.faces`)
+        if isinstance(e, ast.Name) and self.b is not None and au.parent(e) is not None:
+            d = self.b.reaching(e.id, e)
+            if isinstance(d, ast.Attribute):
+                e = d
         if isinstance(e, ast.Attribute) and isinstance(e.value, ast.Name) and e.value.id == self.mesh:
             if e.attr in KINDS or e.attr in CORNER_KINDS:
                 return e.attr
@@ -424,6 +431,10 @@ class Prov:
                     return None
                 target = target.elts[1]
             k = self.container_kind(inner)
+            if k is None and depth < 5:
+                # a positional subset / copy / filtered copy of the container still yields rows of it
+                ri = self.rows_info(inner, node, depth + 1)
+                k = ri[0] if ri else None
             if k is not None:
                 if k in CORNER_KINDS:
                     return ("elem", CORNER_KINDS[k], None) if isinstance(target, ast.Name) else None
@@ -435,6 +446,50 @@ class Prov:
         rk = self.row_expr_kind(src_e, node, depth + 1)
         if rk is not None:
             return self._from_row(target, name, rk)
+        return None
+
+    def rows_info(self, e, at=None, depth=0):
+        """(kind, filters, sliced) when `e` denotes a sequence of rows of mesh.<kind>: the container itself, a slice / copy of it,
+        a comprehension `[r for r in <rows> if cond]`, or a local bound to one of these; filters = the `if` tests met on the way"""
+        if depth > 6:
+            return None
+        at = at if at is not None else e
+        k = self.container_kind(e)
+        if k in KINDS:
+            return k, [], False
+        if isinstance(e, ast.Call) and au.call_tail(e) in self.ROW_WRAPPERS and e.args and not isinstance(e.func, ast.Attribute):
+            return self.rows_info(e.args[0], at, depth + 1)
+        if isinstance(e, ast.Subscript) and isinstance(e.slice, ast.Slice):
+            r = self.rows_info(e.value, at, depth + 1)
+            if r is None:
+                return None
+            sl = e.slice
+            full = sl.lower is None and sl.upper is None and (sl.step is None or au.const(sl.step) == 1)
+            return r[0], r[1], r[2] or not full
+        if isinstance(e, (ast.ListComp, ast.GeneratorExp)) and len(e.generators) == 1 and isinstance(e.elt, ast.Name) \
+                and isinstance(e.generators[0].target, ast.Name) and e.elt.id == e.generators[0].target.id:
+            r = self.rows_info(e.generators[0].iter, at, depth + 1)
+            if r is None:
+                return None
+            return r[0], r[1] + list(e.generators[0].ifs), r[2]
+        if isinstance(e, ast.Name):
+            bd = self.find_binding(e.id, at if au.parent(e) is None else e)
+            if bd and bd[2] == "assign" and isinstance(bd[0], ast.Name):
+                return self.rows_info(bd[1], bd[3], depth + 1)
+            if bd is None:
+                # bound on several paths (`rows = A if .. else B` spelt with statements): rows of one kind on every path
+                defs = [st for st in au.stmts(self.fn.body) if isinstance(st, ast.Assign) and len(st.targets) == 1
+                        and isinstance(st.targets[0], ast.Name) and st.targets[0].id == e.id]
+                others = [st for st in au.stmts(self.fn.body) if st not in defs and sym.Bindings._assigns(st, e.id, deep=False)]
+                infos = [self.rows_info(st.value, st, depth + 1) for st in defs]
+                if len(defs) >= 2 and not others and all(i_ is not None for i_ in infos) and len({i_[0] for i_ in infos}) == 1:
+                    return infos[0][0], [ast.Constant(value="<selection depends on the path>")], True
+        if isinstance(e, (ast.ListComp, ast.GeneratorExp)) and len(e.generators) == 1 and isinstance(e.elt, ast.Subscript) \
+                and self.container_kind(e.elt.value) in KINDS and isinstance(e.generators[0].target, ast.Name) \
+                and isinstance(e.elt.slice, ast.Name) and e.elt.slice.id == e.generators[0].target.id:
+            # rows picked by an id sequence: [mesh.K[i] for i in ids]
+            self.ids_of[id(e)] = e.generators[0].iter
+            return self.container_kind(e.elt.value), list(e.generators[0].ifs), ("ids", e.generators[0].iter)
         return None
 
     ROW_WRAPPERS = {"sorted", "reversed", "list", "tuple", "set", "frozenset", "keyify", "array", "asarray", "flip", "sort",
@@ -824,6 +879,12 @@ def eval_test(test, env):
                 v = val(x.operand)
                 return None if v is None else -v
             return None
+        if len(test.ops) == 1 and isinstance(test.ops[0], (ast.Is, ast.IsNot)) and isinstance(test.comparators[0], ast.Constant) \
+                and test.comparators[0].value is None:
+            lv = val(test.left)
+            if lv is None:
+                return None
+            return isinstance(test.ops[0], ast.IsNot)
         left = val(test.left)
         if left is None:
             return None
